@@ -665,7 +665,7 @@ fn c02_histories(req: &Value) -> Value {
 }
 
 /// RLIMIT_FSIZE for the whole process while the guard lives (SIGXFSZ ignored, so write(2) fails with EFBIG).
-struct FsizeLimit(u64, u64);
+pub struct FsizeLimit(u64, u64);
 #[repr(C)]
 struct RLimit {
 	cur: u64,
@@ -677,7 +677,7 @@ extern "C" {
 	fn signal(sig: i32, handler: usize) -> usize;
 }
 impl FsizeLimit {
-	fn set(bytes: u64) -> FsizeLimit {
+	pub fn set(bytes: u64) -> FsizeLimit {
 		let mut old = RLimit { cur: 0, max: 0 };
 		unsafe {
 			signal(25, 1); // SIGXFSZ -> SIG_IGN
